@@ -181,10 +181,27 @@ impl Prop for C11 {
             cs.push(Case { events: s.clone(), user_id: uid, share_id: sid, block: "sequences-lenient", lenient: true, caps: 0, write_cap: 0, reactivated: 0 });
             cs.push(Case { events: s.clone(), user_id: uid, share_id: sid, block: "sequences-no-scancode-flag", lenient: false, caps: 2, write_cap: 3, reactivated: 0 });
         }
+        // H: long sessions on one client: 300 and 70 000 events (16-bit counters wrap, anything that accumulates shows),
+        // pointer and key events alternating, a server PDU of each kind every 97 events
+        for n in [300usize, 70_000] {
+            let mut e = vec![];
+            for i in 0..n {
+                if i % 97 == 96 {
+                    e.push(Ev::Server((i / 97 % 9) as u8));
+                }
+                e.push(match i % 4 {
+                    0 => Ev::Ptr { x: i as u16, y: (i / 3) as u16, button: 0, down: false },
+                    1 => Ev::Key { code: (i % 128) as u16, down: true },
+                    2 => Ev::Key { code: (i % 128) as u16 - 1, down: false },
+                    _ => Ev::Ptr { x: (i * 7) as u16, y: 1, button: (1 + i / 4 % 3) as u8, down: i % 8 == 3 },
+                });
+            }
+            cs.push(Case { events: e, user_id: uid, share_id: sid, block: "long-session", lenient: false, caps: 0, write_cap: 0, reactivated: 0 });
+        }
         // G: the same after the server has deactivated and re-activated the session (fresh or reused share id): the
         // input PDUs name the share of the activation they are sent in
         for s in seqs.iter().filter(|s| s.len() <= 2) {
-            for reactivated in [1u8, 2, 3, 4] {
+            for reactivated in [1u8, 2, 3, 4, 5] {
                 for share_id in [sid, 0, 0xFFFF_FFFF] {
                     cs.push(Case { events: s.clone(), user_id: uid, share_id, block: "after-reactivation", lenient: false, caps: 0, write_cap: 0, reactivated });
                 }
@@ -201,7 +218,7 @@ impl Prop for C11 {
         json!({"idx": idx, "block": c.block, "user_id": c.user_id, "share_id": c.share_id, "n_events": c.events.len(), "events": c.events.iter().take(8).collect::<Vec<_>>()})
     }
     fn rule(&self) -> String {
-        "cases = event sequences submitted through RdpClient::write on a really activated client (raw stack), decoded by the reference peer. [all-x/all-y/all-scancodes] every value 0..65535 of x, y and scancode (batches of 64 events, order checked); [buttons] 4 buttons x 2 press states x 5x5 boundary coordinates; [sequences] every sequence of <=3 (<=5 in thorough) events over a 9-letter alphabet incl. an unsendable kind, alone and with one server PDU (fast-path bitmap, set-error-info, unknown data PDU, a demand-active or a confirm-active arriving in the active state, an indication on the user channel or on another static channel, data PDUs naming share id 0 / another share id) interleaved at every position; [refused-write] one write refused by the transport (WouldBlock / TimedOut / Other, before its first byte) at every position of every sequence of <=2 events; [write-refused-inside-the-frame] the transport takes 1..40 bytes of the frame of the last event and then refuses once: Ok only with exactly one whole PDU on the wire, Err only with that prefix; [identifiers] server-assigned user ids x share ids; [entry-point-x-capabilities-x-transport] a probe sequence (incl. the unsendable kind through write and try_write, a repeated pointer move) through write / try_write x 5 server capability lists (Windows, minimal, input capability without the scancode flag, no input capability, unknown sets) x a transport accepting 1..48 bytes per write; every sequence of <=2 events through try_write, and with the no-scancode-flag list on a 3-byte transport; [after-reactivation] every sequence of <=2 events after a deactivate-all and a second activation with another / the same share id (3 base share ids), also with server finalization PDUs that name the previous share or share 0: the PDUs name the share of the last demand-active. Non-trivial: >= 2 events or non-default identifiers.".into()
+        "cases = event sequences submitted through RdpClient::write on a really activated client (raw stack), decoded by the reference peer. [all-x/all-y/all-scancodes] every value 0..65535 of x, y and scancode (batches of 64 events, order checked); [buttons] 4 buttons x 2 press states x 5x5 boundary coordinates; [sequences] every sequence of <=3 (<=5 in thorough) events over a 9-letter alphabet incl. an unsendable kind, alone and with one server PDU (fast-path bitmap, set-error-info, unknown data PDU, a demand-active or a confirm-active arriving in the active state, an indication on the user channel or on another static channel, data PDUs naming share id 0 / another share id) interleaved at every position; [refused-write] one write refused by the transport (WouldBlock / TimedOut / Other, before its first byte) at every position of every sequence of <=2 events; [write-refused-inside-the-frame] the transport takes 1..40 bytes of the frame of the last event and then refuses once: Ok only with exactly one whole PDU on the wire, Err only with that prefix; [long-session] 300 and 70 000 events on one client with a server PDU every 97 events; [identifiers] server-assigned user ids x share ids; [entry-point-x-capabilities-x-transport] a probe sequence (incl. the unsendable kind through write and try_write, a repeated pointer move) through write / try_write x 5 server capability lists (Windows, minimal, input capability without the scancode flag, no input capability, unknown sets) x a transport accepting 1..48 bytes per write; every sequence of <=2 events through try_write, and with the no-scancode-flag list on a 3-byte transport; [after-reactivation] every sequence of <=2 events after a deactivate-all and a second activation with another / the same share id (3 base share ids), also with server finalization PDUs that name the previous share or share 0: the PDUs name the share of the last demand-active; and after a re-activation during which a write and a try_write were attempted after every read (refused / ignored, nothing sent then or later). Non-trivial: >= 2 events or non-default identifiers.".into()
     }
     fn assumptions(&self) -> Vec<String> {
         vec![
@@ -210,9 +227,9 @@ impl Prop for C11 {
         ]
     }
     fn run_case(&mut self, idx: u64) -> Outcome {
-        let c = self.cases[idx as usize].clone();
+        let c = crate::alloc::exempt(|| self.cases[idx as usize].clone());
         let caps = [crate::peer::CapsKind::WindowsCapture, crate::peer::CapsKind::Minimal, crate::peer::CapsKind::InputWithoutScancodes, crate::peer::CapsKind::NoInputCapability, crate::peer::CapsKind::WithUnknown][c.caps as usize % 5].clone();
-        let p = ServerParams { user_id: c.user_id, share_id: c.share_id, caps, reactivations: if (1..=3).contains(&c.reactivated) { 1 } else { 0 }, reuse_share_id: c.reactivated == 2, finalization_share_id: match c.reactivated { 3 => Some(1), 4 => Some(0), _ => None }, ..Default::default() };
+        let p = ServerParams { user_id: c.user_id, share_id: c.share_id, caps, reactivations: if (1..=3).contains(&c.reactivated) || c.reactivated == 5 { 1 } else { 0 }, reuse_share_id: c.reactivated == 2, finalization_share_id: match c.reactivated { 3 => Some(1), 4 => Some(0), _ => None }, ..Default::default() };
         let mut conn = match raw_active(&ClientCfg::default(), p) {
             Ok(c) => c,
             Err(e) => return Outcome::fail("setup", "honest-activation-failed", e),
@@ -231,13 +248,41 @@ impl Prop for C11 {
                 c.share_id = crate::peer::share_id_of_activation(c.share_id, 1);
             }
         }
+        if c.reactivated == 5 {
+            // the same re-activation with input attempts (write and try_write) after every read of it: none of them is sent —
+            // not then (the reference server would see an input PDU inside the finalization) and not later
+            let cl = conn.client.as_mut().unwrap();
+            let mut n = 0;
+            loop {
+                if let Err(e) = cl.read(|_| {}) {
+                    return Outcome::fail("setup", "honest-activation-failed", format!("re-activation read #{}: {:?}", n, e));
+                }
+                n += 1;
+                if cl.verif_global().verif_state_id() == 5 {
+                    break;
+                }
+                if n >= 16 {
+                    return Outcome::fail("setup", "honest-activation-failed", "re-activation: not active after 16 reads".to_string());
+                }
+                let before = conn.sh.borrow().from_client.len();
+                let r1 = cl.write(RdpEvent::Pointer(PointerEvent { x: 900 + n as u16, y: 77, button: button(1), down: true }));
+                let r2 = cl.try_write(RdpEvent::Key(KeyboardEvent { code: 0x50 + n as u16, down: true }));
+                if r1.is_ok() || r2.is_err() {
+                    return Outcome::fail("mismatch", "input-during-re-activation-not-refused-as-documented", format!("after read #{} of the re-activation (state {}): write -> ok={}, try_write -> ok={}", n, cl.verif_global().verif_state_id(), r1.is_ok(), r2.is_ok()));
+                }
+                if conn.sh.borrow().from_client.len() != before {
+                    return Outcome::fail("mismatch", "input-sent-during-re-activation", format!("after read #{} of the re-activation {} bytes were written for refused / ignored input events", n, conn.sh.borrow().from_client.len() - before));
+                }
+            }
+            c.share_id = crate::peer::share_id_of_activation(c.share_id, 1);
+        }
         if c.write_cap > 0 {
             conn.sh.borrow_mut().write_plan = crate::memlink::WritePlan::Cap(c.write_cap);
         }
         let lenient = c.lenient;
         let client = conn.client.as_mut().unwrap();
         let start_log = conn.peer.borrow().srv.log.len();
-        let mut expected: Vec<InputEvent> = vec![];
+        let mut expected: Vec<InputEvent> = crate::alloc::exempt(|| Vec::with_capacity(c.events.len()));
         let mut lenient_down_none = vec![];
         let mut fail_pending = false;
         let mut refused = 0u32;
@@ -340,8 +385,8 @@ impl Prop for C11 {
             }
         }
         // decode what the peer received
-        let log: Vec<Vec<u8>> = conn.peer.borrow().srv.log[start_log..].iter().map(|m| m.raw.clone()).collect();
-        let mut got: Vec<InputEvent> = vec![];
+        let log: Vec<Vec<u8>> = crate::alloc::exempt(|| conn.peer.borrow().srv.log[start_log..].iter().map(|m| m.raw.clone()).collect());
+        let mut got: Vec<InputEvent> = crate::alloc::exempt(|| Vec::with_capacity(c.events.len() + 16));
         for raw in &log {
             let r = (|| -> Result<Vec<InputEvent>, String> {
                 let dt = framing::parse_x224_dt(raw)?;
